@@ -1,5 +1,7 @@
 import PercevalModel.Proto
 import PercevalModel.Model.C13
+import PercevalModel.Model.C13Kinds
+import PercevalModel.Model.C13Proc
 import PercevalModel.SimProto
 
 /-!
@@ -24,6 +26,14 @@ import PercevalModel.SimProto
   * `{"op":"session","fixed":b,"steps":[{"set":T} | {"q":modes}, …]}` → `{"outs":[…]}`: the replies
     of ONE long-lived simulator object (`sessionStep` run from the fresh object over the whole
     history): `null` for an accepted `set_circuit`, the `probs` reply for a query, `{"err":…}`.
+  * `{"op":"leaf","kind":K,"flag":null|true|false}` → `{"n":…,"U":rows}`: `compute_unitary(use_polarization=flag)`
+    of ONE component of class `K` (`leafUnitary`), `K` a leaf as in the trees below; or `{"err":"AssertionError"}`.
+  * `{"op":"proc","nS":[…],"nI":[…],"perfect":[b,…],"hsum":h,"z0":z,"steps":[{"in":s} | {"pol":i} | {"noise":z} |
+    {"min":v} | {"clear":true} | {"q":true}, …]}` → `{"outs":[…]}`: the replies of ONE `Processor` (`procStep` run from
+    the fresh object): `null` for a setter, `{"dist":T|null,"min":v}` for a `probs()` — what is handed to the simulator,
+    `T` a term `{"gen":[z,s]}` (source of noise `z` on ordinary input `s`), `{"genpol":[z,i]}`, `{"single":i}`
+    (`SVDistribution` of polarised input `i`) — or `{"err":…}`.  Inputs and noise models are indices; `nS`, `nI` their
+    photon numbers, `perfect` whether the source of noise `z` is perfect.
 
   Trees: `{"plain":k,"U":rows}`, `{"pol":k,"U":rows}`, `{"wp":[c,s,c2,s2]}`, `{"pr":[c,s]}`,
   `{"pbs":true}`, `{"circ":m,"items":[{"off":o,"c":T},…]}`.
@@ -70,6 +80,37 @@ partial def evalTree (j : Json) : Except String (PComp GQ) := do
     -- `acc` is reversed: fold it back into a `PItems` in program order
     let its := acc.foldl (fun r p => PItems.cons p.1 p.2 r) PItems.nil
     return .circ m its
+
+def evalKind (j : Json) : Except String (Kind GQ) := do
+  if let .ok k := natOf j "plain" then
+    let rows ← squareRows j k
+    return .ordinary k (matOfRows k rows)
+  else if let .ok k := natOf j "pol" then
+    let rows ← squareRows j (k * 2)
+    return .polU k (matOfRows (k * 2) rows)
+  else if let .ok a := j.getObjVal? "wp" then
+    let p ← gqList a 4
+    return .wp (p.getD 0 0) (p.getD 1 0) (p.getD 2 0) (p.getD 3 0)
+  else if let .ok a := j.getObjVal? "pr" then
+    let p ← gqList a 2
+    return .pr (p.getD 0 0) (p.getD 1 0)
+  else if let .ok _ := j.getObjVal? "pbs" then
+    return .pbs
+  else throw "bad kind"
+
+def procOp (sj : Json) : Except String (POp Nat Nat Nat) := do
+  if let .ok s := natOf sj "in" then return .withInput s
+  else if let .ok i := natOf sj "pol" then return .withPol i
+  else if let .ok z := natOf sj "noise" then return .setNoise z
+  else if let .ok v := natOf sj "min" then return .setMin (v : Int)
+  else if let .ok _ := sj.getObjVal? "clear" then return .clear
+  else if let .ok _ := sj.getObjVal? "q" then return .query
+  else throw "bad processor request"
+
+def procReply : Except String (Option (Option Json × Int)) → Json
+  | .error e => errJson e
+  | .ok none => Json.null
+  | .ok (some (d, v)) => Json.mkObj [("dist", d.getD Json.null), ("min", toJson v)]
 
 def flagOf (j : Json) : Except String (Option Bool) :=
   match j.getObjVal? "flag" with
@@ -229,6 +270,28 @@ def handle (j : Json) : Json :=
           ("phys", ratToJson (SimSpec.physPerf sel.cond dm)),
           ("logic", ratToJson (SimSpec.logicalPerf sel.cond dm)),
           ("retained", ratToJson (Dist.mass (SimSpec.retained sel.cond dm)))])]
+    | "leaf" =>
+      let k ← evalKind (← j.getObjVal? "kind")
+      if k.m = 0 then throw "AssertionError"
+      let flag ← flagOf j
+      let M ← leafUnitary GQ.I k flag
+      let mv : MatV GQ M.1 M.1 := MatV.ofMatrix M.2
+      return Json.mkObj [("n", toJson M.1), ("U", matVJson mv)]
+    | "proc" =>
+      let nS ← natList (← j.getObjVal? "nS")
+      let nI ← natList (← j.getObjVal? "nI")
+      let perfect ← (← arrOf j "perfect").toList.mapM fun (b : Json) => b.getBool?
+      let env : PEnv Nat Nat Nat Json :=
+        { gen := fun z s => Json.mkObj [("gen", Json.arr #[toJson z, toJson s])]
+          genPol := fun z i => Json.mkObj [("genpol", Json.arr #[toJson z, toJson i])]
+          single := fun i => Json.mkObj [("single", toJson i)]
+          perfect := fun z => perfect.getD z false
+          nS := fun s => nS.getD s 0
+          nI := fun i => nI.getD i 0
+          hsum := ← natOf j "hsum" }
+      let ops ← (← arrOf j "steps").toList.mapM procOp
+      let outs := (SM.run (procStep env) ⟨none, none, ← natOf j "z0", none⟩ ops).2
+      return Json.mkObj [("outs", Json.arr (outs.map procReply).toArray)]
     | "session" =>
       let fixed ← boolOf j "fixed"
       let steps ← arrOf j "steps"
